@@ -292,6 +292,18 @@ func closureFn(v ssa.Value) *ssa.Function {
 	switch x := v.(type) {
 	case *ssa.MakeClosure:
 		f, _ := x.Fn.(*ssa.Function)
+		// a method value (x.m): the synthetic wrapper's body is one call of the method
+		if f != nil && strings.HasPrefix(f.Synthetic, "bound method wrapper") {
+			for _, b := range f.Blocks {
+				for _, in := range b.Instrs {
+					if ci, ok := in.(ssa.CallInstruction); ok {
+						if g := ci.Common().StaticCallee(); g != nil {
+							return g
+						}
+					}
+				}
+			}
+		}
 		return f
 	case *ssa.Function:
 		return x
